@@ -40,8 +40,8 @@ pub struct MT942 {
     #[serde(rename = "13D")]
     pub field_13d: Field13D,
 
-    /// Statement lines
-    #[serde(rename = "#")]
+    /// Statement lines (optional: an interim report may have none)
+    #[serde(rename = "#", default)]
     pub statement_lines: Vec<MT942StatementLine>,
 
     /// Number and Sum of Debits (Field 90D)
